@@ -53,7 +53,7 @@ HookOutsEq == {S(0), S(1), S(NaN)}
 HookCfgsS == Sharded(HookCfgs)
 
 (* S-empty: a model whose list of check variables is empty (every pass is trivially "below") *)
-EmptyCfgs == { c \in Mk(0..3, 0..MaxI, {0, 1}, {"raise", "ignore"}, {"raise", "skip", "replace"}, {TRUE}, {3}, {0, 1},
+EmptyCfgs == { c \in Mk(0..3, 0..MaxI, {0, 1}, {"raise", "ignore"}, {"raise", "skip", "replace"}, {TRUE}, {3}, {0, 1, 2, -2},
                         {<<>>}, {<<>>}) : c.t = 1 }
 EmptyOuts == {S(0)}
 EmptyCfgsS == Sharded(EmptyCfgs)
